@@ -216,6 +216,7 @@ func cmdCheck(args []string) {
 	noReplay := fs.Bool("no-replay", false, "skip native replay (development only; never registered)")
 	only := fs.String("only", "", "only harnesses matching this substring (development)")
 	mapAll := fs.Bool("map-order-all", false, "explore map iteration orders")
+	deadline := fs.Int("deadline", 0, "wall-clock limit in seconds for the exploration (0 = tier default)")
 	fs.Parse(args)
 	if *prop == "" {
 		fmt.Fprintln(os.Stderr, "check: -prop required")
@@ -295,6 +296,14 @@ func cmdCheck(args []string) {
 	// 2. vacuity twin: a harness whose last assertion is false must be reported
 	twins := findHarnesses(mainPkg, "vpW_"+*prop+"_")
 	ex := NewExplorer(p, cfg, append(append([]*ssaFunction{}, hs...), twins...))
+	dl := *deadline
+	if dl == 0 {
+		dl = 900
+		if *tier == "thorough" {
+			dl = 3 * 3600
+		}
+	}
+	ex.deadline = time.Now().Add(time.Duration(dl) * time.Second)
 	t1 := time.Now()
 	ex.Run()
 	exploreS := time.Since(t1).Seconds()
